@@ -4,8 +4,9 @@
    functions they call on default expressions (ast.unparse as show_expr, ast.literal_eval as lit_eval)
    and PySem-style py_signature (what inspect.signature reports).  The docstring-derived IR is an INPUT
    (obtained by the harness from the real parse.docstring), so this layer does not depend on the model
-   of the docstring parsers.  Transcribed as the code is now (after fix 340a6a0: defaults are padded with
-   [None] * diff).  Definitions only. *)
+   of the docstring parsers.  Transcribed as the code is now (after fixes 340a6a0: defaults are padded with
+   [None] * diff; cc5b15e: parameters sorted into signature order; 14f8a19: AST defaults evaluated first;
+   e642f10: get_value's Not).  Definitions only. *)
 From Coq Require Import List Ascii Bool Arith ZArith.
 From Coq Require String.
 Import String.StringSyntax.
@@ -293,7 +294,8 @@ Definition apply_unop (op : str) (v : pyval) : outcome pyval :=
     | VInt z => Ok (VInt (- z - 1)) | VBool b => Ok (VInt (- int_of_bool b - 1))
     | _ => Err TypeError
     end
-  else Err KeyError.       (* the table has the key "not_", the node class is "Not" *)
+  else if str_eqb op (L "Not") then Ok (VBool (negb (truthy v)))     (* operator.not_ *)
+  else Err KeyError.
 
 Definition none_to_NoneStr (v : pyval) : pyval :=
   match v with VNone => VStr NoneStr | _ => v end.
@@ -360,20 +362,21 @@ Definition infer_default (p : gparam) (d0 : dval) (infer_type : bool) : outcome 
   do typ3 <- (if infer_type && fld_is_none (g_typ p) && negb (dval_in_none_types d2)
               then match dval_type_name d2 with Some n => Ok (Has n) | None => Err Unmodelled end
               else Ok (g_typ p));
-  do nq <- needs_quoting (fget typ3);
-  do d4 <- (if nq || (match d2 with DV (VStr _) => true | _ => false end)
-            then Ok (match d2 with DV (VStr s) => DV (VStr (unquote s)) | _ => d2 end, None)
-            else match d2 with
-                 | DE e =>
-                   if negb (expr_ok e) then Err Unmodelled
-                   else match lit_eval e with
-                        | Ok lv => Ok (dval_of_lval lv, Some (lval_type_name lv))
-                        | Err ValueError =>
-                          Ok (DV (VStr (bt3 ++ paren_wrap_code (rstrip_chars [nl] (show_expr e)) ++ bt3)), None)
-                        | Err x => Err x
-                        end
-                 | _ => Ok (d2, None)
-                 end);
+  do d4 <- (match d2 with
+            | DE e =>                                  (* isinstance(default, AST) is tested first *)
+              if negb (expr_ok e) then Err Unmodelled
+              else match lit_eval e with
+                   | Ok lv => Ok (dval_of_lval lv, Some (lval_type_name lv))
+                   | Err ValueError =>
+                     Ok (DV (VStr (bt3 ++ paren_wrap_code (rstrip_chars [nl] (show_expr e)) ++ bt3)), None)
+                   | Err x => Err x
+                   end
+            | _ =>
+              do nq <- needs_quoting (fget typ3);
+              if nq || (match d2 with DV (VStr _) => true | _ => false end)
+              then Ok (match d2 with DV (VStr s) => DV (VStr (unquote s)) | _ => d2 end, None)
+              else Ok (d2, None)
+            end);
   let '(d, tn) := d4 in
   do typ5 <- (if fld_is_none typ3 && negb (dval_is_NoneStr d)
               then match tn with
@@ -512,9 +515,23 @@ Definition opt_or (a : option str) (b : str) : str :=
 (* parse.function(function_def, infer_type, word_wrap, function_type, function_name) for an ast.FunctionDef;
    doc_ir = docstring(doc_str.replace(":cvar", ":param"), infer_type=infer_type) when there is a docstring.
    Three stages: everything before ir_merge (pf_prepare), ir_merge, everything after it (pf_finish). *)
+(* sorted(params.items(), key = index of the name in sig_order, or len(sig_order)): a stable sort of a
+   dict's items (unique keys): the signature's names that are present, in signature order, then the rest
+   in their own order *)
+Fixpoint dedup_first (l : list str) : list str :=
+  match l with
+  | [] => []
+  | x :: r => x :: filter (fun y => negb (str_eqb x y)) (dedup_first r)
+  end.
+
+Definition sort_by_sig (sig_order : list str) (ps : list (str * gparam)) : list (str * gparam) :=
+  flat_map (fun k => match od_get k ps with Some v => [(k, v)] | None => [] end) (dedup_first sig_order)
+  ++ filter (fun kv => negb (mem_str (fst kv) sig_order)) ps.
+
 Record prepared : Type := mkPrepared {
   pp_target : ir;
   pp_other : ir;
+  pp_sig : list str;                   (* sig_order *)
   pp_append : list (str * gparam);     (* params_to_append *)
   pp_body : list stmt;                 (* body without the docstring *)
   pp_returns : option expr
@@ -556,12 +573,14 @@ Definition pf_prepare (doc_ir : option ir) (fd : stmt) (function_type function_n
             (mkIR (Has (opt_or function_name fname)) (Has (opt_or function_type found_type))
                   (ir_doc base) (fst kw) (ir_returns base) internal')
             (mkIR Missing Missing Missing (od_of_pairs (sig_pairs a pos)) FNone None)
+            (map a_name pos ++ map a_name (ar_kwonly a))
             (snd kw) body' fn_returns)
   | _ => Err AssertionError
   end.
 
 Definition pf_finish (pp : prepared) (merged : ir) (infer_type word_wrap : bool) : outcome ir :=
-  let params1 := fold_left (fun d kv => od_set (fst kv) (snd kv) d) (pp_append pp) (ir_params merged) in
+  let params1 := fold_left (fun d kv => od_set (fst kv) (snd kv) d) (pp_append pp)
+                           (sort_by_sig (pp_sig pp) (ir_params merged)) in
   do params2 <- set_names_and_types params1 infer_type word_wrap;
   do rets <- interpolate_return (pp_body pp) (pp_returns pp) (ir_returns merged);
   do rets' <- match rets with
